@@ -48,8 +48,12 @@ Batches == { BW([i \in 1..n |-> Req("put", KeyN(i))]) : n \in {1, 2, 24, 25, 26,
            \cup { BW([i \in 1..n |-> Req("del", KeyN(i))]) : n \in {25, 26} }
            \cup { BW(<<Req("neither", <<>>)>>), BW(<<Req("both", KeyN(1))>>), BW(<<Req("put", KeyN(1)), Req("neither", <<>>)>>),
                   BW(<<Req("put", KeyN(1)), Req("both", KeyN(2))>>) }
-SetupDef == << AddTable("c1", T1, "h", "r"), AddIndex("c1", T1, "gsx", "g", "s"),
+T2 == "tbl2"
+Req2(t, x) == [t |-> t, put |-> [some |-> TRUE, i |-> x], del |-> [some |-> FALSE, k |-> <<>>]]
+\* the 25-request limit counts the requests of ALL tables of the call
+Spread == { BW([i \in 1..(2 * n) |-> Req2(IF i <= n THEN T1 ELSE T2, KeyN(i))]) : n \in {12, 13} }
+SetupDef == << AddTable("c1", T1, "h", "r"), AddTable("c1", T2, "h", "r"), AddIndex("c1", T1, "gsx", "g", "s"),
                Put(T1, K(97, 49)), Put(T1, K(97, 50)), Put(T1, K(98, 49)) >>
-MenuDef == SetToSeq(Valid) \o SetToSeq(Invalid) \o SetToSeq(Batches)
-BoundDef(d) == Cardinality(d["c1"].tables[T1].items) <= 3
+MenuDef == SetToSeq(Valid) \o SetToSeq(Invalid) \o SetToSeq(Batches) \o SetToSeq(Spread)
+BoundDef(d) == Cardinality(d["c1"].tables[T1].items) <= 3 /\ Cardinality(d["c1"].tables[T2].items) = 0
 =============================================================================
